@@ -63,6 +63,9 @@ struct World
 thread_local bool tl_inOwnFlush = false;
 void cbLogged(World &w)
 {
+  // the start of a user callback is a visible event: give the scheduler a point right before it, so that "stop()
+  // returns on another thread between the transport's decision to call back and the callback body" is explorable
+  mc_yield_point("callback");
   if (!tl_inOwnFlush)
     w.lastCallbackStep = mc_step();
 }
